@@ -145,4 +145,37 @@ theorem forall_env_of_check [BEq ν] [LawfulBEq ν] (s : Skel ν) (P : Out → L
   simp only [checkAll, List.all_eq_true] at h
   exact h ts hts p hp
 
+/-- `checkAll` restricted to the valuations in which every condition in `req` (that the skeleton consults) is true -/
+def checkWhen [BEq ν] [LawfulBEq ν] (req : List ν) (s : Skel ν) (P : Out → List ν → Bool) : Bool :=
+  (subsets (condNames s).eraseDups).all fun ts =>
+    !(req.all fun c => !(decide (c ∈ (condNames s).eraseDups)) || decide (c ∈ ts)) || (paths (valOf ts) s).all fun p => P p.1 p.2
+
+/-- **Lifting under assumptions.**  As `forall_env_of_check`, for the environments in which the conditions `req` hold. -/
+theorem forall_env_when [BEq ν] [LawfulBEq ν] (req : List ν) (s : Skel ν) (P : Out → List ν → Bool) (h : checkWhen req s P = true)
+    (env : Env ν) (hreq : ∀ c ∈ req, env.cond c = true) (k : Nat) :
+    P (exec env s k).1 (exec env s k).2.1 = true := by
+  have hts := filter_mem_subsets (condNames s).eraseDups env.cond
+  have hagree : ∀ n ∈ (condNames s).eraseDups, valOf ((condNames s).eraseDups.filter env.cond) n = env.cond n := by
+    intro n hn
+    unfold valOf
+    cases hc : env.cond n
+    · simp [List.mem_filter, hc]
+    · simp [List.mem_filter, hc, hn]
+  have hs := paths_sound env s k
+  rw [← paths_congr (valOf ((condNames s).eraseDups.filter env.cond)) env.cond s (fun n hn => hagree n (List.mem_eraseDups.mpr hn))] at hs
+  simp only [checkWhen, List.all_eq_true] at h
+  have h1 := h _ hts
+  simp only [Bool.or_eq_true, Bool.not_eq_true', List.all_eq_true] at h1
+  rcases h1 with h1 | h1
+  · exfalso
+    have : (req.all fun c => !(decide (c ∈ (condNames s).eraseDups)) || decide (c ∈ (condNames s).eraseDups.filter env.cond)) = true := by
+      simp only [List.all_eq_true]
+      intro c hc
+      by_cases hm : c ∈ (condNames s).eraseDups
+      · simp [hm, List.mem_filter, hreq c hc]
+      · simp [hm]
+    rw [this] at h1
+    exact Bool.noConfusion h1
+  · exact h1 _ hs
+
 end LPVerif.Skel
